@@ -276,8 +276,20 @@ func hasConstructor(pi *pkgInfo, t string) string {
 	return ""
 }
 
+// docMentionsPanic reports whether the documentation announces a panic (a documented precondition).
+// Negated mentions ("never panics", "does not panic", "instead of panicking", "without panicking",
+// "rather than panic") announce the opposite and do not count.
 func docMentionsPanic(fd *ast.FuncDecl) bool {
-	return fd.Doc != nil && strings.Contains(strings.ToLower(fd.Doc.Text()), "panic")
+	if fd.Doc == nil {
+		return false
+	}
+	t := strings.Join(strings.Fields(strings.ToLower(fd.Doc.Text())), " ")
+	for _, neg := range []string{"never panics", "never panic", "does not panic", "do not panic", "doesn't panic", "will not panic",
+		"cannot panic", "no panic", "not panic", "instead of panicking", "instead of a panic", "without panicking", "without a panic", "rather than panicking",
+		"rather than panic"} {
+		t = strings.ReplaceAll(t, neg, "")
+	}
+	return strings.Contains(t, "panic")
 }
 
 // validBase returns the body of a func() []byte producing the zero-value encoding, or "".
